@@ -182,6 +182,15 @@ pub struct World {
   pub opts: WorldOpts,
   #[serde(default)]
   pub npm: NpmSpec,
+  /// configured type imports (compilerOptions.types of a configuration file): referrer id and target ids
+  #[serde(default)]
+  pub imports: Vec<ImportSpec>,
+}
+
+#[derive(Debug, Clone, Deserialize, Serialize, Default)]
+pub struct ImportSpec {
+  pub r#ref: String,
+  pub specs: Vec<String>,
 }
 
 impl World {
@@ -215,6 +224,11 @@ impl World {
     for id in self.mods.keys() {
       if self.url_of(id) == url {
         return id.clone();
+      }
+    }
+    for im in &self.imports {
+      if self.url_of(&im.r#ref) == url {
+        return im.r#ref.clone();
       }
     }
     url.to_string()
